@@ -40,6 +40,29 @@ CLAIMED = {
         note=CORE_NOTE,
         technique='Coq proofs about the sampled check semantics (all draws, Z arithmetic) + translator-regenerated templates + differential correspondence',
         design='5/C02'),
+    'C09': dict(
+        text='Machine-checked (Coq 8.16.1): a path-sensitive syntactic cost analysis of check expressions is '
+             'proved sound for every evaluation (any objects, any draw) and the cost of the code generated for a '
+             'hint is proved bounded by bound(h), a function of the hint alone: one item per one-argument '
+             'container level, one key and its value per mapping level, one item per unignorable fixed-tuple '
+             'position; non-collections are never iterated (trace safety). Holds on accepting and rejecting '
+             'paths for containers of any size. The model trace is compared with spy-container logs on every '
+             'run, and objects scaled x10/x1000 are measured on beartype itself. The explanation path '
+             '(describing a rejection) is measured on the scaling stream, not yet modelled.',
+        note=CORE_NOTE,
+        technique='Coq proof: sound path-sensitive cost analysis + bound on generated code by induction on hints + spy-container correspondence',
+        design='5/C09'),
+    'C10': dict(
+        text='Machine-checked (Coq 8.16.1): every protocol operation performed by the generated check on the '
+             'objects it inspects is proved, inside the evaluation proof (invariant over the trace), to be one of '
+             'the read-only operations len() of a Sized object, in-range indexing of a Sequence, indexing a mapping '
+             'at a key it holds, next(iter(.)) only of re-iterable Collections, isinstance/issubclass/==/truth; '
+             'so no iterator or generator is advanced and __missing__ cannot fire. The expression grammar has no '
+             'mutating operation and the template translator is fail-closed. Spy containers logging every dunder '
+             '(mutators included) and re-reading one-shot iterables after all five entry points tie this to the code.',
+        note=CORE_NOTE + ' ABC contracts assumed: iterating a Collection and indexing a Mapping at a present key do not mutate.',
+        technique='Coq proof: trace-safety invariant established by induction on hints inside the evaluator correctness proof + spy-container correspondence',
+        design='5/C10'),
     'C06': dict(
         text='Machine-checked refinement (Coq 8.16.1): the trie registry model answers every query, reports every '
              'per-call outcome and holds the path hook exactly as a flat longest-prefix specification does, for '
